@@ -28,6 +28,8 @@ ASSUMPTIONS = [
     "references that differ from an existing name only by letter case are not a fault category here (the library deliberately names the clashing file)",
 ]
 BUDGET = {"quick": 500, "thorough": 10000}
+# coverage-guided twins (thorough tier): part name -> executions per shard; see core.cover
+COVER = {"fault": 2500, "prints": 1500}
 
 ROOT = "ns"
 
